@@ -14,6 +14,7 @@ var vC14Progs = []string{
 	"力量 + d6", "d6 + 力量 * 2", "(d4 + d6) * (d8 - 1)", "2d6 + 3d4 + d8 + 1", "10 - d6 - d6", "2 * d6 * 3",
 	"b2 + 1", "p1 - 1", "f + 10", "2a10 + 1", "2c8 + 2", "d6优势 + 1", "2d6min3 + 1", "2d6max3 + 1", "((2d6))", "1 + (2 + (d6 + 3))",
 	"(2d4)d6 + 1", "d(d6) + 2", "(d4)d(d4)k1 * 2", "2d3d4 + 1", "d4d6d8", "(2d3)d4d5 - 1", "2d3d4kh2 * 2",
+	"4d6dl5 + 1", "2d10dh3 * 2", "3d6kh4 - 1", "3d6dl3", "2d6kl2 + 2d6dh1",
 }
 
 // vC14Eval evaluates the arithmetic in a skeleton (numbers replaced by '#')
@@ -97,7 +98,7 @@ func (p *vC14P) sum() int64 {
 	}
 }
 
-//vh:prop=C14 tiers=quick,thorough sigkeys=prog summaries=Roll:roll-contract solver=z3-new/int unwind=10 unwind_ok=1 budget_s=1800 bounds="31 expressions over + - * ( ) with integer literals, a multi-byte identifier bound to a symbolic integer (|v| <= 2^20), and dice terms of every family (XdY with keep/drop/min/max/advantage, CoC, Fate, WoD, Double Cross) whose dice are symbolic Roll-contract values, with spaces, tabs and line breaks: deleting the [..] annotations from the process text leaves an arithmetic expression that evaluates to the result; every XdY annotation's value is the sum of the kept dice it lists; GetDetailText is idempotent and leaves result, variables and generator log unchanged"
+//vh:prop=C14 tiers=quick,thorough sigkeys=prog summaries=Roll:roll-contract solver=z3-new/int unwind=10 unwind_ok=1 budget_s=1800 bounds="36 expressions over + - * ( ) with integer literals, a multi-byte identifier bound to a symbolic integer (|v| <= 2^20), and dice terms of every family (XdY with keep/drop/min/max/advantage, CoC, Fate, WoD, Double Cross) whose dice are symbolic Roll-contract values, with spaces, tabs and line breaks: deleting the [..] annotations from the process text leaves an arithmetic expression that evaluates to the result; every XdY annotation's value is the sum of the kept dice it lists; GetDetailText is idempotent and leaves result, variables and generator log unchanged"
 func VH_C14_expr() {
 	k := vChoice("prog", len(vC14Progs))
 	vm := vSeededVM()
